@@ -2,10 +2,12 @@ package route
 
 import (
 	"fmt"
+	"regexp"
 	"sort"
 	"strings"
 
 	"github.com/gofiber/fiber/v3"
+	"github.com/gofiber/fiber/v3/middleware/rewrite"
 
 	"verifharness/internal/drive"
 	"verifharness/internal/ev"
@@ -26,7 +28,29 @@ const (
 	// prefix-stripping idiom c.Path(strings.TrimPrefix(c.Path(), "/api")) — the new path is a
 	// view of the string the context handed out
 	effPathDerive
+	// the framework's own rewrite middleware with one rule (arg "from=>to"): it overrides the
+	// path when the rule applies and calls Next
+	effRewrite
 )
+
+// rewriteTarget gives the path the rewrite middleware sets for the rule "from=>to" on the
+// current path, following the documented rule syntax ('*' captures, $1 $2 … in the target; the
+// rule is matched against the end of the path). ok=false: the rule does not apply.
+func rewriteTarget(cur, arg string) (string, bool) {
+	i := strings.Index(arg, "=>")
+	from, to := arg[:i], arg[i+2:]
+	re := regexp.MustCompile(strings.ReplaceAll(regexp.QuoteMeta(from), `\*`, "(.*)") + "$")
+	m := re.FindStringSubmatch(cur)
+	if m == nil {
+		return cur, false
+	}
+	for k := len(m) - 1; k >= 1; k-- {
+		to = strings.ReplaceAll(to, fmt.Sprintf("$%d", k), m[k])
+	}
+	return to, true
+}
+
+var rewriteRules = []string{"/a=>/ab", "/ab=>/abc", "/abc=>/x", "/x=>/abc/d", "/ab/*=>/abc/$1", "/abc/*=>/$1", "/*/d=>/ab/$1", "/A=>/a", "/abcd=>/", "/=>/abc"}
 
 // derivePath computes the override of an effPathDerive handler from the current path (cur) and
 // the request URI as sent (orig). Pure string work, used by the handler and by the oracle. A
@@ -53,6 +77,36 @@ func derivePath(cur, orig, arg string) string {
 }
 
 var deriveArgs = []string{"trim:/a", "trim:/ab", "trim:/abc", "trim:/A", "trim:/x", "cut:2", "cut:3", "cut:4", "trimsuffix:/d", "trimsuffix:/", "trimsuffix:c", "orig"}
+
+func isASCII(s string) bool {
+	for i := 0; i < len(s); i++ {
+		if s[i] >= 0x80 {
+			return false
+		}
+	}
+	return true
+}
+
+func hasNonASCIIUpper(s string) bool {
+	for _, r := range s {
+		if r >= 0x80 && strings.ToLower(string(r)) != string(r) {
+			return true
+		}
+	}
+	return false
+}
+
+func pctEncodeNonASCII(s string) string {
+	var sb strings.Builder
+	for i := 0; i < len(s); i++ {
+		if s[i] >= 0x80 {
+			fmt.Fprintf(&sb, "%%%02X", s[i])
+		} else {
+			sb.WriteByte(s[i])
+		}
+	}
+	return sb.String()
+}
 
 // spellPath writes out the full path of `sub` registered under `prefix`: the prefix itself for
 // an empty sub-path, otherwise prefix and sub-path joined by exactly one slash.
@@ -124,7 +178,9 @@ type program struct {
 
 // ---- generation
 
-var litPool = []string{"/", "/a", "/ab", "/abc", "/abcd", "/ab/", "/abc/", "/abc/d", "/x", "/abx", "/abc/d/e", "/A", "/aB", "/ABC"}
+var litPool = []string{"/", "/a", "/ab", "/abc", "/abcd", "/ab/", "/abc/", "/abc/d", "/x", "/abx", "/abc/d/e", "/A", "/aB", "/ABC",
+	// non-ASCII letters, upper-case ones included
+	"/Ärzte", "/Ölçü/a", "/İ", "/ab/É", "/ärzte"}
 var paramPool = []string{"/:p", "/a:p", "/ab:p", "/abc:p", "/ab*", "/+", "/*", "/:p?", "/abc/:p", "/abc/:p?", "/ab/*", "/a/:p/d", "/:p/:q", "/abc/+", "/:p-:q", "/ab.:p", `/a\:b`, "/ab/:p<int>", "/:p<maxLen(2)>"}
 
 func genPath(r *gen.Rand) string {
@@ -141,7 +197,7 @@ func genPath(r *gen.Rand) string {
 }
 
 func genPrefix(r *gen.Rand) string {
-	return gen.Pick(r, []string{"/", "/a", "/ab", "/abc", "/ab/", "/:v", "/abc/d", "", "/A"})
+	return gen.Pick(r, []string{"/", "/a", "/ab", "/abc", "/ab/", "/:v", "/abc/d", "", "/A", "/Ärzte", "/Ö"})
 }
 
 func genProgram(r *gen.Rand) *program {
@@ -168,7 +224,7 @@ func genProgram(r *gen.Rand) *program {
 		// effects: mostly Next; the last handler of a unit may stop / err / rewrite
 		if allowEff {
 			last := &hs[k-1]
-			switch r.PickW(50, 25, 5, 12, 8, 8) {
+			switch r.PickW(50, 25, 5, 12, 8, 8, 8) {
 			case 1:
 				last.Eff = effStop
 			case 2:
@@ -182,6 +238,9 @@ func genProgram(r *gen.Rand) *program {
 			case 5:
 				last.Eff = effPathDerive
 				last.Arg = gen.Pick(r, deriveArgs)
+			case 6:
+				last.Eff = effRewrite
+				last.Arg = gen.Pick(r, rewriteRules)
 			}
 		}
 		return hs
@@ -424,6 +483,14 @@ func (b *builder) handler(h hspec) fiber.Handler {
 		return func(c fiber.Ctx) error {
 			tr.ids = append(tr.ids, h.ID)
 			return c.Next()
+		}
+	}
+	if h.Eff == effRewrite {
+		i := strings.Index(h.Arg, "=>")
+		rw := rewrite.New(rewrite.Config{Rules: map[string]string{h.Arg[:i]: h.Arg[i+2:]}})
+		return func(c fiber.Ctx) error {
+			tr.ids = append(tr.ids, h.ID)
+			return rw(c)
 		}
 	}
 	return func(c fiber.Ctx) error {
@@ -670,6 +737,38 @@ func (o *oracle) solo(i int, m, path string) bool {
 	// exactly when RoutePatternMatch (which never consults the 3-byte lookup index) says the
 	// pattern matches it.
 	u := &o.p.Units[i]
+	// A request spelled exactly as a literal route or middleware prefix was registered matches it,
+	// whatever the routing options (with UnescapePath also when its non-ASCII bytes are
+	// percent-encoded).
+	if o.e != nil && validMethod(o.p.Cfg, m) && !strings.HasPrefix(u.Path, "//") {
+		full := o.p.fullPath(u)
+		if len(full) > 0 && full[0] == '/' && !strings.ContainsAny(full, `:*+?\<>()%`) && !strings.Contains(full, "//") {
+			handles := u.Kind != "m" && u.Kind != "add" && u.Kind != "route.m"
+			for _, um := range u.Methods {
+				handles = handles || um == m
+			}
+			asRegistered := path == full || o.p.Cfg.Unescape && path != full && path == pctEncodeNonASCII(full)
+			if handles && asRegistered {
+				o.e.Eval(1)
+				o.e.Stat("requests_spelled_exactly_as_registered", 1)
+				if !v {
+					cls := "ascii"
+					switch {
+					case hasNonASCIIUpper(full):
+						cls = "non-ascii-upper-case-letter"
+					case !isASCII(full):
+						cls = "non-ascii"
+					}
+					if path != full {
+						cls += "+percent-encoded"
+					}
+					o.e.Violation(o.c, "dispatch|path-spelled-as-registered-not-matched|"+u.Kind+"|"+cls,
+						fmt.Sprintf("%s %s: the %s unit registered under %q (alone on an app) does not run", m, path, u.Kind, full),
+						map[string]any{"cfg": o.p.Cfg.String(), "unit": u, "groups": o.p.Groups, "spelled_path": full, "method": m, "path": path})
+				}
+			}
+		}
+	}
 	// Units registered through a group or a Route chain: the same handlers registered directly on
 	// an app under the spelled-out full path handle exactly the same requests.
 	// (a sub-path written with several leading slashes has no single spelled-out form: not compared)
@@ -732,6 +831,8 @@ type expectation struct {
 	Ambiguous bool `json:"ambiguous"`
 	// Derived: an override computed from the current path (a view of the context's own string)
 	Derived bool `json:"path_override_derived_from_current_path"`
+	// Rewrite: the override was made by the rewrite middleware
+	Rewrite bool `json:"path_override_by_rewrite_middleware"`
 }
 
 func (o *oracle) laterTwin(i int) bool {
@@ -832,8 +933,18 @@ func (o *oracle) expect(m, path string) *expectation {
 			case effErr:
 				ex.Status = 418
 				return ex
-			case effPath, effPathDerive:
+			case effPath, effPathDerive, effRewrite:
 				np := h.Arg
+				if h.Eff == effRewrite {
+					// the middleware reads c.Path(): same restrictions as for derived overrides
+					if o.p.Cfg.Unescape && strings.ContainsAny(path+orig, "%+") || strings.ContainsAny(path+orig, "?#") {
+						ex.Ambiguous = true
+					}
+					np, _ = rewriteTarget(path, h.Arg)
+					if np != path {
+						ex.Rewrite = true
+					}
+				}
 				if h.Eff == effPathDerive {
 					// the handler derives the new path from c.Path(), which is the decoded path
 					// under UnescapePath: only judged where decoding changes nothing
@@ -994,6 +1105,9 @@ func genRequests(r *gen.Rand, p *program, nreq int) [][2]string {
 		case 2:
 			path = "/" + r.StringFrom("abc/x", r.Range(0, 5))
 		}
+		if p.Cfg.Unescape && !isASCII(path) && r.Bool() {
+			path = pctEncodeNonASCII(path)
+		}
 		m := gen.Pick(r, methods)
 		if r.Chance(1, 25) {
 			m = "FOO"
@@ -1092,6 +1206,10 @@ func judgeRequests(e *ev.Env, c *ev.Case, p *program, o *oracle, full *drive.Dir
 			ctxClass = "after-path-override-within-index-bucket"
 		} else if ex.MethodOv {
 			ctxClass = "after-method-override"
+		}
+		if ex.Rewrite {
+			ctxClass += "+by-rewrite-middleware"
+			e.Stat("overrides_by_rewrite_middleware", 1)
 		}
 		if ex.Derived && ex.PathOv {
 			ctxClass += "+new-path-derived-from-current-path"
